@@ -346,11 +346,12 @@ pub fn c14(tier: Tier) -> i32 {
             json!({"engine":"seq-sender","ops":seq.iter().map(|o| format!("{:?}", o)).collect::<Vec<_>>()}),
         );
     }
+    real_receiver_pass(&mut rep, tier);
     let e = execs.load(Ordering::Relaxed);
     println!("  sender: executions={} (levels {:?}) operations={} distinct observations={}", e, levels, steps.load(Ordering::Relaxed), observations.lock().unwrap().len());
-    rep.set("states", json!(e));
-    rep.set("transitions", json!(steps.load(Ordering::Relaxed)));
-    rep.set("traces_validated_against_impl", json!(e));
+    rep.add("states", e);
+    rep.add("transitions", steps.load(Ordering::Relaxed));
+    rep.add("traces_validated_against_impl", e);
     rep.set("distinct_observations", json!(observations.lock().unwrap().len()));
     rep.set("levels", json!(levels));
     rep.set("exhaustive", json!(true));
@@ -390,4 +391,239 @@ pub fn replay(v: &serde_json::Value) -> i32 {
     } else {
         1
     }
+}
+
+// ---------------------------------------------------------------------------------------------
+// Second pass: the peer is the repository's real `Receiver` (with a handler that records every
+// message and answers `ack:<payload>`); the harness is only the wire between the two.
+// ---------------------------------------------------------------------------------------------
+
+#[derive(Clone)]
+struct RecHandler {
+    log: std::sync::Arc<Mutex<Vec<Vec<u8>>>>,
+}
+
+#[async_trait::async_trait]
+impl network::MessageHandler for RecHandler {
+    async fn dispatch(&self, writer: &mut network::Writer, message: Bytes) -> Result<(), Box<dyn std::error::Error>> {
+        use futures::SinkExt as _;
+        self.log.lock().unwrap().push(message.to_vec());
+        let mut ans = b"ack:".to_vec();
+        ans.extend_from_slice(&message);
+        let _ = writer.send(Bytes::from(ans)).await;
+        Ok(())
+    }
+}
+
+#[derive(Clone, Copy, Debug, PartialEq, Eq, PartialOrd, Ord)]
+enum Op2 {
+    Send,
+    Cut,      // the wire breaks: both ends see the connection closed; bytes in flight are lost
+    Relay,    // the wire moves everything currently in flight, both directions
+    Refuse,
+    Accept,
+    Timer,
+    Drop(u8),
+}
+
+fn run2(seq: &[Op2]) -> (Vec<(String, String)>, String) {
+    let rt = Rt::new();
+    let addr: SocketAddr = "127.0.0.1:7100".parse().unwrap();
+    let log = std::sync::Arc::new(Mutex::new(Vec::new()));
+    let mut sender = rt.block_on(async {
+        network::Receiver::spawn(addr, RecHandler { log: log.clone() });
+        ReliableSender::new()
+    });
+    rt.quiesce();
+    let mut handles: BTreeMap<u8, CancelHandler> = BTreeMap::new();
+    let mut resolved: BTreeMap<u8, Vec<u8>> = BTreeMap::new();
+    let mut dropped: BTreeSet<u8> = BTreeSet::new();
+    let mut sent = 0u8;
+    // wire: (sender-side endpoint, receiver-side endpoint)
+    let mut wire: Option<(Endpoint, Endpoint)> = None;
+    let mut refusing = false;
+    let mut relay = |rt: &Rt, wire: &mut Option<(Endpoint, Endpoint)>, refusing: bool, move_bytes: bool| {
+        rt.quiesce();
+        simnet::enter(rt.ns);
+        for ep in simnet::take_outbound() {
+            if refusing {
+                ep.close();
+                continue;
+            }
+            if let Some(peer) = simnet::dial(7100) {
+                *wire = Some((ep, peer));
+            }
+        }
+        if move_bytes {
+            for _ in 0..4 {
+                if let Some((a, b)) = wire.as_ref() {
+                    for f in a.read_frames() {
+                        b.write_frame(&f);
+                    }
+                    rt.quiesce();
+                    for f in b.read_frames() {
+                        a.write_frame(&f);
+                    }
+                    rt.quiesce();
+                    if a.closed_by_node() {
+                        b.close();
+                    }
+                }
+            }
+        }
+    };
+    let settle = |handles: &mut BTreeMap<u8, CancelHandler>, resolved: &mut BTreeMap<u8, Vec<u8>>| {
+        let keys: Vec<u8> = handles.keys().cloned().collect();
+        for k in keys {
+            if let Ok(b) = handles.get_mut(&k).unwrap().try_recv() {
+                resolved.insert(k, b.to_vec());
+                handles.remove(&k);
+            }
+        }
+    };
+    for op in seq {
+        simnet::enter(rt.ns);
+        match op {
+            Op2::Send => {
+                if sent < M {
+                    let k = sent;
+                    sent += 1;
+                    let h = rt.block_on(async { sender.send(addr, Bytes::from(vec![b'm', k])).await });
+                    handles.insert(k, h);
+                }
+                relay(&rt, &mut wire, refusing, false);
+            }
+            Op2::Relay => relay(&rt, &mut wire, refusing, true),
+            Op2::Cut => {
+                if let Some((a, b)) = wire.take() {
+                    a.close();
+                    b.close();
+                }
+                relay(&rt, &mut wire, refusing, false);
+            }
+            Op2::Refuse => {
+                simnet::set_refuse_all(true);
+                refusing = true;
+            }
+            Op2::Accept => {
+                simnet::set_refuse_all(false);
+                refusing = false;
+            }
+            Op2::Timer => {
+                rt.advance(61_000);
+                relay(&rt, &mut wire, refusing, false);
+            }
+            Op2::Drop(k) => {
+                if handles.remove(k).is_some() {
+                    dropped.insert(*k);
+                }
+                relay(&rt, &mut wire, refusing, false);
+            }
+        }
+        settle(&mut handles, &mut resolved);
+    }
+    // stabilise
+    simnet::enter(rt.ns);
+    simnet::set_refuse_all(false);
+    for _ in 0..40 {
+        relay(&rt, &mut wire, false, true);
+        settle(&mut handles, &mut resolved);
+        if handles.is_empty() {
+            break;
+        }
+        rt.advance(61_000);
+    }
+    let got: Vec<Vec<u8>> = log.lock().unwrap().clone();
+    let mut bad = Vec::new();
+    let mut firsts: Vec<u8> = Vec::new();
+    for m in &got {
+        if m.len() == 2 && m[0] == b'm' {
+            if !firsts.contains(&m[1]) {
+                firsts.push(m[1]);
+            }
+        } else {
+            bad.push(("garbled".to_string(), format!("the real receiver delivered bytes that are no message: {:?}", m)));
+        }
+    }
+    let mut sorted = firsts.clone();
+    sorted.sort();
+    if firsts != sorted {
+        bad.push(("out-of-order".to_string(), format!("the real receiver's handler saw first deliveries in order {:?}", firsts)));
+    }
+    for k in 0..sent {
+        if !dropped.contains(&k) {
+            if !firsts.contains(&k) {
+                bad.push(("not-delivered".to_string(), format!("message {} never reached the real receiver's handler although its handle was kept", k)));
+            }
+            match resolved.get(&k) {
+                Some(v) if *v == [b"ack:".to_vec(), vec![b'm', k]].concat() => {}
+                Some(v) => bad.push(("wrong-ack-pairing".to_string(), format!("handle of message {} resolved with {:?}", k, String::from_utf8_lossy(v)))),
+                None => bad.push(("handle-unresolved".to_string(), format!("handle of message {} never resolved", k))),
+            }
+        }
+    }
+    for p in rt.panics() {
+        bad.push(("panic".to_string(), p));
+    }
+    drop(sender);
+    (bad, format!("{:?}", firsts))
+}
+
+pub fn real_receiver_pass(rep: &mut Report, tier: Tier) {
+    let alphabet = [Op2::Send, Op2::Relay, Op2::Cut, Op2::Refuse, Op2::Accept, Op2::Timer, Op2::Drop(0), Op2::Drop(1)];
+    let maxlen = tier.pick(6usize, 7usize);
+    let mut seqs: Vec<Vec<Op2>> = Vec::new();
+    fn rec(len: usize, a: &[Op2], cur: &mut Vec<Op2>, out: &mut Vec<Vec<Op2>>) {
+        if !cur.is_empty() {
+            out.push(cur.clone());
+        }
+        if cur.len() == len {
+            return;
+        }
+        for e in a {
+            let faults = cur.iter().filter(|o| matches!(o, Op2::Cut | Op2::Refuse | Op2::Drop(_))).count();
+            if matches!(e, Op2::Cut | Op2::Refuse | Op2::Drop(_)) && faults >= 2 {
+                continue;
+            }
+            if *e == Op2::Accept && !cur.contains(&Op2::Refuse) {
+                continue;
+            }
+            if *e == Op2::Send && cur.iter().filter(|o| **o == Op2::Send).count() >= M as usize {
+                continue;
+            }
+            if let Op2::Drop(k) = e {
+                if cur.iter().filter(|o| **o == Op2::Send).count() <= *k as usize || cur.contains(e) {
+                    continue;
+                }
+            }
+            if cur.last() == Some(e) && matches!(e, Op2::Relay | Op2::Timer | Op2::Refuse | Op2::Accept) {
+                continue;
+            }
+            cur.push(*e);
+            rec(len, a, cur, out);
+            cur.pop();
+        }
+    }
+    rec(maxlen, &alphabet, &mut Vec::new(), &mut seqs);
+    let results = crate::util::par_map(seqs.len(), ncpu(), |i| run2(&seqs[i]));
+    let mut best: BTreeMap<String, (usize, String)> = BTreeMap::new();
+    let mut obs = BTreeSet::new();
+    let mut steps = 0u64;
+    for (i, (bad, o)) in results.into_iter().enumerate() {
+        obs.insert(o);
+        steps += seqs[i].len() as u64;
+        for (sig, what) in bad {
+            if best.get(&sig).map_or(true, |b| seqs[i].len() < seqs[b.0].len()) {
+                best.insert(sig, (i, what));
+            }
+        }
+    }
+    for (sig, (i, what)) in &best {
+        rep.violation(format!("sender+receiver:{}", sig), format!("[real Receiver as peer, ops {:?}] {}", seqs[*i], what), json!({"engine":"seq-sender","pass":"real-receiver","ops2":seqs[*i].iter().map(|o| format!("{:?}", o)).collect::<Vec<_>>()}));
+    }
+    println!("  sender + real receiver: executions={} operations={} distinct delivery orders={}", seqs.len(), steps, obs.len());
+    rep.add("states", seqs.len() as u64);
+    rep.add("transitions", steps);
+    rep.add("traces_validated_against_impl", seqs.len() as u64);
+    rep.set("real_receiver_pass", json!({"executions": seqs.len(), "max_length": maxlen, "alphabet": "send, wire relays everything in flight, wire cut, refuse/accept connects, back-off timer, drop handle 0/1; at most 2 faults"}));
 }
